@@ -1,6 +1,6 @@
 (* EncapRun.v — line-protocol adapter for the Encap model (harness glue, executable). *)
 From Coq Require Import List NArith Bool Arith String.
-From Snow Require Import Lib.Wire Model.Encap.
+From Snow Require Import Lib.Wire Model.Encap Model.EncapFail.
 Import ListNotations.
 Open Scope N_scope.
 
@@ -55,6 +55,15 @@ Definition run (args : list bytes) : bytes :=
       if beq op (bs "dec") then
         match payload_parse a, list_parse script_entry_parse b with
         | Some s, Some sc => result_print (read_stream s sc)
+        | _, _ => ERR_BADCASE
+        end
+      else if beq op (bs "decx") then
+        (* the reader fails with a non-EOF error where the dec reader would report EOF *)
+        match payload_parse a, list_parse script_entry_parse b with
+        | Some s, Some sc =>
+            let r := read_stream_x s sc in
+            bs "chunks=" ++ list_print (map (fun d => 120 :: hex_encode d) (fst r)) ++ bs " err="
+               ++ (match snd r with XIo => bs "io" | XTooLong => bs "toolong" end)
         | _, _ => ERR_BADCASE
         end
       else if beq op (bs "dec0") then
